@@ -28,6 +28,7 @@ type c11Case struct {
 	pkg              string // name the '-' import is referred to by
 	keep             []string
 	stays            bool // the '-'/context import is still referred to by the rewritten code: it must stay
+	addedUnnamed     bool // the '+' import is unnamed: an unnamed spec of that path must be present exactly once
 }
 
 var c11APICases = []c11Case{
@@ -43,6 +44,10 @@ var c11APICases = []c11Case{
 		patch: "@@\nvar x expression\n@@\n-import \"k8s.io/api/core/v1\"\n\n-v1.Old(x)\n+fresh(x)\n",
 		src:   "package p\n\nimport (\n\t\"fmt\"\n\n\t\"k8s.io/api/core/v1\"\n)\n\nfunc f() {\n\tlc := 1\n\t_ = lc\n\tfmt.Println(v1.Old(2), v1.Container{})\n\tfr.Other()\n}\n",
 		gone:  "k8s.io/api/core/v1", pkg: "v1", keep: []string{"fmt"}, stays: true},
+	{name: "plus-unnamed-while-aliased",
+		patch: "@@\nvar x expression\n@@\n-import \"github.com/pkg/errors\"\n+import \"errors\"\n\n-errors.Errorf(x)\n+errors.New(x)\n",
+		src:   "package p\n\nimport (\n\t\"fmt\"\n\tstderrors \"errors\"\n\n\t\"github.com/pkg/errors\"\n)\n\nfunc f() error {\n\tfmt.Println(stderrors.ErrUnsupported)\n\treturn errors.Errorf(\"x\")\n}\n",
+		gone:  "github.com/pkg/errors", added: "errors", pkg: "errors", keep: []string{"fmt"}, addedUnnamed: true},
 	{name: "delete-import-shadowing-var",
 		patch: "@@\nvar x expression\n@@\n-import \"errors\"\n\n-errors.New(x)\n+fail(x)\n",
 		src:   "package p\n\nimport (\n\t\"errors\"\n\t\"os\"\n)\n\nfunc f() error {\n\tlclvar := os.Args\n\t_ = lclvar.Len\n\treturn errors.New(\"x\")\n}\n\nvar g = frevar.Is\n",
@@ -78,7 +83,7 @@ func StubC11ParseFile(fset *token.FileSet, filename string, src any, mode parser
 	n := len(st.cs.pkg)
 	local := c11Sym("local", n)
 	free := c11Sym("free", n)
-	st.freeIsPkg = nd.StrEq(free, st.cs.pkg)
+	hasFree := false
 	ast.Inspect(f, func(nn ast.Node) bool {
 		if id, ok := nn.(*ast.Ident); ok {
 			switch id.Name {
@@ -86,10 +91,12 @@ func StubC11ParseFile(fset *token.FileSet, filename string, src any, mode parser
 				id.Name = local
 			case "fre", "frevar", "fr":
 				id.Name = free
+				hasFree = true
 			}
 		}
 		return true
 	})
+	st.freeIsPkg = hasFree && nd.StrEq(free, st.cs.pkg)
 	return f, nil
 }
 
@@ -149,13 +156,33 @@ func VerifC11API() {
 	}
 	nd.Assert(nd.Implies(nd.Not(st.freeIsPkg), gone == 0), cs.name+": the '-' import survives although nothing refers to the package any more (a local variable is not a reference)")
 	nd.Assert(nd.Implies(st.freeIsPkg, gone == 1), cs.name+": the '-' import was removed although remaining code still refers to the package")
-	if cs.added != "" {
+	if cs.added != "" && !cs.addedUnnamed {
 		nd.Assert(c11Count(st.fout, cs.added) == 1, cs.name+": the '+' import is not present exactly once")
+	}
+	if cs.addedUnnamed {
+		nd.Assert(c11CountUnnamed(st.fout, cs.added) == 1, cs.name+": the unnamed '+' import is not present exactly once (an existing import of the path under another name is not it)")
 	}
 	for _, k := range cs.keep {
 		nd.Assert(c11Count(st.fout, k) == 1, cs.name+": an import the patch does not mention was added, removed or duplicated: "+k)
 	}
 	nd.Reach("done")
+}
+
+func c11CountUnnamed(f *ast.File, path string) int {
+	n := 0
+	for _, d := range f.Decls {
+		gd, ok := d.(*ast.GenDecl)
+		if !ok || gd.Tok != token.IMPORT {
+			continue
+		}
+		for _, s := range gd.Specs {
+			is := s.(*ast.ImportSpec)
+			if p, err := strconv.Unquote(is.Path.Value); err == nil && p == path && is.Name == nil {
+				n++
+			}
+		}
+	}
+	return n
 }
 
 // ReplayC11API: the model's names are written into the source text and the
@@ -223,8 +250,11 @@ func ReplayC11API() {
 	if free == cs.pkg && gone != 1 {
 		nd.Fail(cs.name + ": the '-' import was removed although remaining code still refers to the package")
 	}
-	if cs.added != "" && c11Count(g, cs.added) != 1 {
+	if cs.added != "" && !cs.addedUnnamed && c11Count(g, cs.added) != 1 {
 		nd.Fail(cs.name + ": the '+' import is not present exactly once")
+	}
+	if cs.addedUnnamed && c11CountUnnamed(g, cs.added) != 1 {
+		nd.Fail(cs.name + ": the unnamed '+' import is not present exactly once (an existing import of the path under another name is not it)")
 	}
 	for _, k := range cs.keep {
 		if c11Count(g, k) != 1 {
